@@ -58,6 +58,7 @@ pub fn step_strategy() -> impl Strategy<Value = Step> {
         3 => (1u32..4096).prop_map(Step::Grid),
         3 => prop_oneof![(0.0f32..4.0), log_uniform(-4.0, 2.5)].prop_map(Step::Arb),
         4 => (-2i8..=2).prop_map(|off| Step::ToEnd { off }),
+        1 => (-2i8..=2).prop_map(|cycles| Step::ToEndCycles { cycles }),
     ]
 }
 
@@ -177,6 +178,22 @@ impl<'a> Exec<'a> {
             Step::Zero => (0.0, true),
             Step::Grid(n) => ((n as f64 * GRID_S) as f32, true),
             Step::Arb(x) => (x.max(0.0), false),
+            Step::ToEndCycles { cycles } => {
+                let one = (GRID_S as f32, true);
+                let Some(total) = self.desc.total(self.model.state) else { return one };
+                let Some(comps) = self.desc.states[self.model.state].as_ref() else { return one };
+                if !total.is_finite() || !self.t.exact {
+                    return one;
+                }
+                let target = total + cycles as f64 * comps[0].timing.cycle as f64;
+                let rem = target - self.t.secs;
+                // exact only if the remaining time is a whole number of grid units and representable
+                if rem > 0.0 && exact32(rem) && (rem * 512.0).fract() == 0.0 && rem * 512.0 < 1e15 {
+                    (rem as f32, true)
+                } else {
+                    one
+                }
+            }
             Step::ToEnd { off } => {
                 let one = (GRID_S as f32, true);
                 let Some(total) = self.desc.total(self.model.state) else { return one };
@@ -707,6 +724,7 @@ pub fn c07(run: &mut Run) {
     for (l, f) in [("landed_exactly_on_end", 0.1), ("crossed_end", 0.2), ("frozen_checked", 0.1), ("infinite_state", 0.1), ("ended_checked_exact", 0.3)] {
         run.require_label("c07_ended", l, f);
     }
+    c07_long_repeats(run);
     // exhaustive sweep: every total duration on the 1/512 s grid up to 4 s x landing exactly on it
     let total: u64 = 2048 * 3;
     run.enumerate(
@@ -752,6 +770,63 @@ pub fn c07(run: &mut Run) {
                 eo.evaluated += 1;
                 eo.nontrivial += 1;
                 eo.sample(|| serde_json::json!({"index": idx, "total_s": tot, "mode": mode}));
+            }
+            Ok(())
+        },
+    );
+}
+
+/// Very long animations: repeat counts around 2^24 and 2^25, where only whole cycles are still
+/// representable next to the end. Advance to total + k cycles (exactly representable) for k = -3..=1.
+pub fn c07_long_repeats(run: &mut Run) {
+    let counts: [u32; 6] = [(1 << 24) - 2, (1 << 24) - 1, 1 << 24, (1 << 24) + 1, (1 << 25) + 3, (1 << 26) + 12];
+    let cycles: [f32; 3] = [0.5, 1.0, 2.0];
+    let total = (counts.len() * cycles.len() * 5 * 2) as u64;
+    run.enumerate(
+        "c07_long_repeat_landing",
+        "repeat counts {2^24-2, 2^24-1, 2^24, 2^24+1, 2^25+3, 2^26+12} x cycle {0.5, 1, 2} s x reverse on/off: one advance to exactly total + k cycles for k = -3..=1 (all exactly representable); is_ended must be (k >= 0) and never flip back; exhaustive over that set",
+        total,
+        4,
+        true,
+        |range, eo| {
+            for idx in range {
+                let mut code = idx as usize;
+                let reverse = code % 2 == 1;
+                code /= 2;
+                let k = (code % 5) as i32 - 3;
+                code /= 5;
+                let cycle = cycles[code % 3];
+                code /= 3;
+                let n = counts[code % counts.len()];
+                let tl = TlDesc {
+                    timing: Timing { cycle, delay: 0.0, repeat: Rep::Times(n), reverse },
+                    default_ez: Ez::Linear,
+                    kfs: vec![KfDesc { pos: 0.0, a: Some(0.0), b: None, c: None, d: None, ez: None }, KfDesc { pos: 1.0, a: Some(100.0), b: None, c: None, d: None, ez: None }],
+                };
+                let total_s = cycle as f64 * (n as f64 + 1.0);
+                let t = total_s + k as f64 * cycle as f64;
+                let fail = |d: String| (serde_json::json!({"index": idx, "cycle": cycle, "repeat": n, "k": k, "reverse": reverse}), d);
+                if !(exact32(total_s) && exact32(t)) {
+                    eo.skipped += 1;
+                    continue;
+                }
+                let desc = AnimDesc { states: vec![Some(vec![tl]), None, None, None, None], initial_state: 0, initial_values: Vals { a: 0.0, b: 0.0, c: 0, d: 0 } };
+                let mut an = desc.build();
+                an.advance(t as f32);
+                let want = k >= 0;
+                if an.is_ended() != want {
+                    return Err(fail(format!("cycle {cycle} s repeated {n} times (total {total_s} s exactly): after advance({t}) is_ended() = {} but the time in state is {} the total", an.is_ended(), if want { "at/after" } else { "before" })));
+                }
+                if want {
+                    let v = an.current_values().a;
+                    let terminal = if reverse { 0.0 } else { 100.0 };
+                    if v != terminal {
+                        return Err(fail(format!("ended but a = {v}, terminal value {terminal}")));
+                    }
+                }
+                eo.evaluated += 1;
+                eo.nontrivial += 1;
+                eo.sample(|| serde_json::json!({"cycle": cycle, "repeat": n, "k": k, "reverse": reverse}));
             }
             Ok(())
         },
